@@ -258,18 +258,18 @@ class C15(Check):
     comp = 'Json'
     extracted = ['coq/Json/model.mli', 'coq/Json/model.ml', 'ocaml/zconv.ml', 'ocaml/json_driver.ml']
     harness_sources = ['harness/json.cpp']
-    per_case_timeout = 10
+    per_case_timeout = 30           # toString of a tree nested 1000 deep takes 2..5 s under ASan on an idle machine (String growth is not geometric)
     level_text = ('Theorems in Coq about an executable model that mirrors src/Document/Json.cpp decision by decision (cursor = remaining '
                   'bytes + line over a NUL-terminated text, every `++pos.pos` a checked advance, loops with explicit fuel): parse never runs '
                   'out of fuel 2*length+3 and never steps past the terminator for every byte string; a reported (line, column) is the '
                   'coordinate pair of an offset of the text; the answer of parse is the same function of the text for every history of the '
                   'Parser object and every previous content of the target Variant (the object model keeps pos.line and the error fields '
                   'across calls; repair 06 clears the target), so the error position of a second parse lies inside the second text; the static '
-                  'wrappers are parse on a fresh object; parse(toString v) = canon v (equal tree) for every tree of null, booleans, '
+                  'wrappers are parse on a fresh object; parse(toString v) = canon v, a tree equal to v (integers by value), for every tree of null, booleans, '
                   '32/64-bit integers, NUL-free strings, lists and maps with distinct NUL-free keys (layers: unescape(escape s) = s, atoll(printf z) = z); '
                   'the two `k.scanf("%x") != 1` tests of readToken are never true (hex4_scan_never_fails, parse_never_reports_hexadecimal_number); '
-                  'the string tokenizer = RFC 8259 on valid literals (escapes, surrogate pairs, UTF-8); stripComments on the C string inside the '
-                  'String (bytes before the first 0 byte) = a five-state reference machine for every input (which agrees with a grammar of comments and literals), keeps every line break, is the '
+                  'the string tokenizer of the model = RFC 8259 on valid literals (escapes, surrogate pairs, UTF-8; beyond the property text, not judged on the implementation); stripComments on the C string inside the '
+                  'String (bytes before the first 0 byte) = a five-state reference machine for every input = exactly what a grammar of plain bytes, string literals, line comments up to the line break and block comments leaves (sound and complete: o is the text without its comments iff stripComments returns o), keeps every line break, is the '
                   'identity on texts without a slash, is never longer than its input, and a second transcription with every src[k] read and '
                   'every *(dest++) write checked against the two buffers (data.length()+1 bytes each) never leaves them. The model is tied to '
                   'the code by running the extracted model, the extracted spec and the ASan/UBSan build on the same inputs (parse results, error '
@@ -290,19 +290,31 @@ class C15(Check):
                   'sscanf %x = scanf_hex, strpbrk = find_one_of) - atoll(printf z) = z is proved for the '
                   'model functions over the whole 64-bit range and validated against libc on boundary and random integers only. '
                   'Doubles are outside the property (kept as opaque text). The nesting depth bound (1000) concerns the C++ stack: the model '
-                  'needs no depth hypothesis, depth up to 1000 is validated by correspondence only (stream nesting). HashMap is modelled as '
+                  'needs no depth hypothesis, depth up to 1000 is validated by running the code only (stream nesting: parse to depth 1000; toString then parse on chains of '
+                  'lists, of maps and of both at depth 255..257, 300, 500, 999, 1000 - the round trip clause has no depth bound; the extracted model follows up to depth 257 (quick) / 300 '
+                  '(thorough), beyond that its list-based parser needs minutes for the 0.25..1 MB toString writes and op rtx lets the spec line alone - flag 1 and the tree canon v - judge the implementation). '
+                  'Line counter: the model counts lines in Z, the code in an int: parse_error_position_inside_text read on the code needs fewer than 2^31 line breaks (2 GiB of text, not '
+                  'reachable by a test); runs of 2^15, 2^16-1, 2^16 and 70000 line breaks (LF, CR LF, CR, inside a literal) and last lines of 70000 bytes are driven (stream large). HashMap is modelled as '
                   'an insertion-ordered association list with replace-in-place on a repeated key. Beyond the property text: the string tokenizer '
-                  'yields the RFC 8259 / RFC 3629 value of every valid literal (theorem string_token_is_rfc8259 against JsonSpec.ref_string; the same '
-                  'reference judges the implementation on op pstr). Documented choices where the text is silent (model mirrors the code, no '
+                  'yields the RFC 8259 / RFC 3629 value of every valid literal (theorem string_token_is_rfc8259 against JsonSpec.ref_string) - a theorem about the MODEL: '
+                  'which value a literal denotes that toString never writes (\\b \\f \\t \\/ \\uXXXX, surrogate pairs) is outside the property text, so op pstr compares implementation and model only '
+                  '(a difference is a correspondence break: no-failing-input-found) and claims a failing input only for a crash or a position outside the text; the escapes toString does write '
+                  '(\\" \\\\ \\n \\r) are judged through rt on every byte 1..255. Documented choices where the text is silent (model mirrors the code, no '
                   'theorem judges them): a raw CR / LF / CR LF inside a string literal is accepted, counted as a line break and dropped from the '
                   'value; an escape \\u0000 puts a 0 byte into the String; an unknown escape keeps its backslash; a String with an embedded 0 '
                   'byte is stripped as the C string before that byte. The reference strip machine of JsonSpec.v is a trusted specification with '
                   'the same five states as the code; it is cross-checked against a grammar-style definition (JsonSpec.strips: plain bytes, string '
                   'literals, line comments up to the line break, block comments whose line breaks stay) by stripComments_follows_comment_grammar '
-                  '(soundness: every cut of a text by the grammar is what the machine produces; that every text has a cut is not proved). After a successful call on a reused Parser the error getters still show the '
+                  '(soundness: every cut of a text by the grammar is what the machine produces; completeness: every text has a cut, comment_grammar_cuts_every_text; hence stripComments_is_the_comment_grammar). After a successful call on a reused Parser the error getters still show the '
                   'previous failure (theorem parser_error_fields states it; not part of the property). '
-                  'Scope of the spec oracle (what a failing input is claimed for): success / failure, the tree, equality after the round trip, the stripped '
-                  'bytes, and that a reported line and column are the coordinates of an offset of the text. The WORDING of error messages is never judged: '
+                  'Scope of the spec oracle (what a failing input is claimed for): no crash / hang / sanitizer report; equality after the round trip for trees of the property\'s class; the stripped '
+                  'bytes; that a reported line and column are the coordinates of an offset of the text; that a reused Parser / non-empty target answers like a fresh one. '
+                  'EQUAL TREE means: Variant::operator== says equal both ways round (the flag the harness prints) AND the tree read back is the tree written up to the width / signedness of its integers '
+                  '(JsonSpec.value_eq; the check compares the dump with dump(canon v) after wiping out i/I/u/U - trusted Python). Reason: the text asks for an equal tree, the library\'s only equality compares '
+                  'integers by value, a JSON text carries no width, and the unchanged code itself returns intType for int64 5 (Example ex_int64_small) - if width were part of equal the property would be false on /repo. '
+                  'That an integer fitting 32 bits comes back as intType (canon) is therefore a model-only detail (difference = correspondence break). Trees outside the class (unsigned integers, arrays: the extension) '
+                  'carry no spec claim at all. For arbitrary text the spec line of parse / sparse / pstr is `no crash; a failure has a position inside`: WHICH texts are accepted and with what tree is a model-only '
+                  'detail (the text: either yields a value or reports failure), e.g. a wrapper that returns true with a partial tree on malformed text is a model/implementation difference only. The WORDING of error messages is never judged: '
                   'it is a model-only detail (the model prints the messages of the current source; a reworded message shows up as a model/implementation '
                   'difference without a failing input). For the static wrappers, whose only report is the text in Error::getErrorString(), the two numbers '
                   'are read out of that text independently of its wording (position_in_message: the numbers behind the words line and column, else the first '
@@ -312,25 +324,28 @@ class C15(Check):
                   'driver, harness (it compares the answers of a reused Parser / non-empty target with those of fresh ones itself), generators. '
                   'The theorems are about the model; the tie to the code is differential.')
     technique = 'coq-proof + model/implementation correspondence (extracted model vs ASan/UBSan build), spec oracles on implementation answers'
-    rule = ('cases = one call each: parse <text>, pstr <string literal content>, strip <String bytes>, rt <tree> (toString then parse), '
+    rule = ('cases = one call each: parse <text>, pstr <string literal content>, strip <String bytes>, rt <tree> (toString then parse; rtx = the same without running the model), '
             'parse2 <shared target?> <text1> <text2> (one Parser object), into <tree> <text> and rtinto <tree0> <tree> (target already holds a value), '
             'sparse <c|s|p> <text> (static wrappers, String overloads), xscan <bytes> (String::scanf("%x") vs scanf_hex); streams: '
             'exhaustive short texts over the delimiter alphabet, over a string-token alphabet and over a comment alphabet; valid documents in many '
             'styles; mutations aimed at escapes, quotes and the terminator; every truncation of sample documents; every byte after a backslash; '
             'truncated and mispaired \\u escapes; line/column documents with CR, LF, CR LF inside and outside strings; comments next to strings '
-            'and escapes; value trees with every byte 1..255 and the integer boundaries; nesting to depth 1000; pairs of failing / succeeding texts on one '
-            'Parser; targets holding scalars, lists, maps; strings of 4..64 KiB and containers of 100+ items; Strings with an embedded 0 byte; '
+            'and escapes; value trees with every byte 1..255 and the integer boundaries; nesting to depth 1000 (parse, and toString-then-parse chains of lists / maps / both at 255..257, 300, 500, 999, 1000); pairs of failing / succeeding texts on one '
+            'Parser; targets holding scalars, lists, maps; strings and keys of 21..4094 bytes and of 4..64 KiB, containers of 100+ items; runs of 2^15..70000 line breaks and lines of 70000 bytes before an error; '
+            'every text of length <= 5 over a comment alphabet with CR; Strings with an embedded 0 byte; '
             'extension: trees with uint / uint64 at 2^31, 2^32, 2^63, 2^64-1 and Array<Variant> (empty, nested, 100+ items); sscanf %x on every short string '
             'over a sign/prefix/digit alphabet. A case is '
             'non-trivial when the text has at least 3 bytes and one of " \\ / [ { (parse/strip/pstr), the tree has a container or a byte that must be '
-            'escaped (rt), or the op line of a reuse op has at least 20 characters; distinct = distinct op text')
+            'escaped (rt / rtx), or the op line of a reuse op has at least 20 characters; distinct = distinct op text')
     assumptions = ['libc printf("%d"/"%lld"), atoll, sscanf("%x"), strpbrk behave as the reference functions of JsonModel.v (print_dec, ref_atoll, scanf_hex - checked on op xscan, find_one_of)',
-                   'Variant/HashMap/List/String behave as value trees with an insertion-ordered map (checked by the dump of every parsed tree); Variant::clear() empties the target']
+                   'Variant/HashMap/List/String behave as value trees with an insertion-ordered map (checked by the dump of every parsed tree); Variant::clear() empties the target',
+                   'fewer than 2^31 line breaks in a text (the code counts lines in an int, the model in Z)',
+                   'a tree on which the implementation crashes or hangs on nearly every case is given up early (crash weight 150 per stream, 300 over all streams; hang = 30): the cases not run are not judged']
 
     def run_impl(self, cases, tag='impl'):
         """as Check.run_impl, but in pieces, so that a tree on which the implementation crashes or hangs on (nearly) every case
         (every crash restarts the harness, every hang costs per_case_timeout seconds) is given up early: a stream starts with a
-        piece of 30 cases and goes on in pieces of 300 while crashes keep coming; a crash weighs 1, a hang 10; at weight 150 the
+        piece of 30 cases and goes on in pieces of 300 while crashes keep coming; a crash weighs 1, a hang 30 (= its seconds); at weight 150 the
         rest of the stream is not run, at weight 300 over all streams the remaining streams are not run at all (vf drops cases
         marked `! notrun`; what has been seen by then is reported)"""
         import vf
@@ -354,7 +369,7 @@ class C15(Check):
             res += r
             for k, v in c.items():
                 crashes[i + k] = v
-            w = sum(10 if v[0] == 'timeout' else 1 for v in c.values())
+            w = sum(30 if v[0] == 'timeout' else 1 for v in c.values())
             weight += w
             self._crash_weight = getattr(self, '_crash_weight', 0) + w
             i += len(chunk)
@@ -619,14 +634,14 @@ class C15(Check):
                     'M2,k62,f,k61,' * (d - 1) + 'M1,k61,L0']
         if thorough:
             for d in [201, 255, 256, 257, 258, 300, 400, 500, 511, 512, 513, 700, 998, 999, 1000]:
-                for tr in chains(d):
-                    cases.append([('rt ' if d <= 400 else 'rtx ') + tr])        # rtx: judged by the spec only, the model is not run
+                for k, tr in enumerate(chains(d) if d <= 700 else chains(d)[:3]):  # the two wide forms need 5 s and more at depth 1000
+                    cases.append([('rt ' if d <= 258 or (d <= 300 and k < 3) else 'rtx ') + tr])     # rtx: judged by the spec only, the model is not run
         else:
             for tr in chains(257)[:3]:
                 cases.append(['rt ' + tr])
             for tr in chains(300)[3:] + chains(500)[:2] + chains(1000)[:1] + chains(999)[2:3]:
                 cases.append(['rtx ' + tr])
-        out.append(Stream('nesting', cases, note='arrays/objects nested up to depth 1000, closed and truncated'))
+        out.append(Stream('nesting', cases, note='arrays/objects nested up to depth 1000, closed and truncated; toString then parse on chains of lists / maps / both up to depth 1000 (rtx: without the model)'))
         out += self.streams_case_splits(thorough, rng, docs)
         out += self.streams_reuse(thorough, rng, docs)
         out += self.streams_large(thorough, rng)
@@ -661,8 +676,8 @@ class C15(Check):
             cases.append(['rtx ' + 'A1,' * d + 'U18446744073709551615'])
             cases.append(['rtx ' + 'A1,L1,' * (d // 2) + 'u7'])
         out = [Stream('extension-trees', cases, note='EXTENSION beyond the property\'s class: uint / uint64 at the boundaries (2^31, 2^32, 2^63, 2^64-1) and '
-                                                     'Array<Variant> (empty, nested, 100+ items, depth 200) through toString and parse; the spec names the tree read back '
-                                                     '(readback v: arrays as lists, unsigned as int / int64, 2^63.. saturated) and makes no claim about ==')]
+                                                     'Array<Variant> (empty, nested, 100+ items, depth 257; 500 / 1000 without the model) through toString and parse; the MODEL names the tree read back '
+                                                     '(readback v: arrays as lists, unsigned as int / int64, 2^63.. saturated); the spec makes no claim outside the property\'s class')]
         # libc sscanf("%x") through String::scanf vs the reference function scanf_hex
         A4 = [0x20, 0x09, 0x2d, 0x2b, 0x30, 0x78, 0x58, 0x31, 0x66, 0x46, 0x67, 0x39, 0x61]     # SP TAB - + 0 x X 1 f F g 9 a
         cases = []
@@ -783,7 +798,8 @@ class C15(Check):
             cases.append(['parse ' + hexs(b'["' + s + b'"\n"x"]')])
             cases.append(['parse ' + hexs(b'"' + b'\\u00e9' * (n // 6) + b'"')])
             cases.append(['parse ' + hexs(b'1' * 300)])                                # a long number (saturates)
-            cases.append(['parse ' + hexs(b' \n' * (n // 2) + b'x')])                  # many line breaks, then an error
+            cases.append(['parse ' + hexs(b' \n' * (n // 2) + b'     x')])             # many line breaks, then an error (in a column no other line has:
+                                                                                       # the spec's search for the offset is quadratic otherwise)
             cases.append(['strip ' + hexs(b'/*' + s + b'*/' + s + b'//' + s)])
             cases.append(['strip ' + hexs(b'"' + s + b'\\"' + s + b'" /* ' + s)])
             cases.append(['strip ' + hexs(b'/*' + b'\n*' * (n // 2) + b'/x')])
@@ -819,7 +835,8 @@ class C15(Check):
         for d in [b'\0', b'a\0b', b'/\0/', b'/*\0*/', b'"\\\0"', b'//x\0\ny', b'/* a\0 */ b', b'"\0', b'a/\0', b'/*x*\0/']:
             cases.append(['strip ' + hexs(d)])
         return [Stream('large', cases, note='strings of 4..64 KiB (plain, every byte escaped, arbitrary bytes) alone and inside containers, containers of 100+ items, '
-                                            'long literals / numbers / runs of line breaks, long comments; Strings with an embedded 0 byte through stripComments')]
+                                            'strings and keys of 21..4094 bytes, long literals / numbers, runs of 2^15..70000 line breaks and lines of 70000 bytes before an error (line / column counters beyond 2^16), long comments; '
+                                            'Strings with an embedded 0 byte through stripComments')]
 
     def streams_case_splits(self, thorough, rng, docs):
         """generators aimed at the case splits of the proofs (str_loop_good, hexn_good, read_token_good, strip_*_ref)"""
@@ -860,7 +877,7 @@ class C15(Check):
             body = text_string(rng, gen_bytes(rng, 10))[1:-1]
             if b'\n' not in body and b'\r' not in body:
                 cases.append(['pstr ' + hexs(body)])
-        out.append(Stream('escapes', cases, note='every byte after a backslash; truncated / damaged \\u escapes; surrogate halves and pairs; literals judged by the RFC 8259 reference'))
+        out.append(Stream('escapes', cases, note='every byte after a backslash; truncated / damaged \\u escapes; surrogate halves and pairs; valid literals in mixed styles (pstr: implementation against the model, whose tokenizer is proved to be the RFC 8259 reference; no spec claim on the value)'))
         # 8. exhaustive short texts over a string-token alphabet
         A2 = [0x22, 0x5c, 0x75, 0x64, 0x38, 0x63, 0x30, 0x0a, 0x0d]               # " \ u d 8 c 0 LF CR
         cases = []
